@@ -5,11 +5,11 @@
 EXTENDS Bridge, TLC, Json
 CONSTANTS MaxLen, MaxK, HBodies, VBodies
 VARIABLES b, done
-Bodies(d) == IF d = "h" THEN HBodies ELSE VBodies
+Bodies(d) == CASE d = "h" -> HBodies [] d = "v" -> VBodies [] d = "b" -> {92, 9586} [] OTHER -> {47, 9585}
 \* (a lone colon or exclamation mark is text by the rules: dashed vertical runs start at length 2)
 Family == { f \in { [ch |-> c, pos |-> p, len |-> n, k |-> kk, n |-> nn, dir |-> d[1], body |-> d[2]] :
                       c \in {42, 111, 79}, p \in {"start", "end", "mid"}, n \in 1..MaxLen, kk \in 0..MaxK, nn \in 0..1,
-                      d \in { dd \in {"h", "v"} \X (HBodies \cup VBodies) : dd[2] \in Bodies(dd[1]) } } :
+                      d \in { dd \in {"h", "v", "b", "s"} \X (HBodies \cup VBodies \cup {92, 47, 9586, 9585}) : dd[2] \in Bodies(dd[1]) } } :
               ~(f.body \in {58, 33} /\ f.len < 2) }
 Init == b \in Family /\ done = FALSE
 Next == ~done /\ done' = TRUE /\ UNCHANGED b
